@@ -39,7 +39,9 @@ CLAIMED = {
             "Taster on every generated well-formed plotfile under all 16 option sets, limits and both modes.",
             "binary_data and boxes_coordinates compare floats (numpy isclose): outside the Lean model, decided on the real code against the oracle."),
     "C04": ("Lean 4 soundness theorem of the validator walk + corruption sweep as correspondence check",
-            "Proof: C04.level_accepts / accepted_level_is_chain (acceptance of a level decomposes into: header parses, files present, header check and "
+            "Proof: C04.good_plotfile_layout (WHOLE plotfile: a good default verdict implies the global header parses and in every validated level the directory and level header exist, the level header parses, every named binary file is present, "
+            "passes the header check and is a chain header line, payload of the announced size, canonical next header, ..., ending exactly at its end - every listed fault negates a conjunct), missing_level_rejected, "
+            "C04.level_accepts / accepted_level_is_chain (acceptance of a level decomposes into: header parses, files present, header check and "
             "byte walk accept each file in offset order; hence each file is a chain), Taste.shapeOK_sound / go_sound (if the byte walk accepts a file then the file is a chain header-line, payload of the "
             "announced size, canonical next header, ... ending exactly at EOF) so each listed layout fault is the negation of a conjunct; "
             "every corruption operator x site (singly and in pairs) is run through Taster in both modes and through the Lean "
@@ -51,17 +53,19 @@ CLAIMED = {
             "the stored boxes and, for single fields, element-wise with the model's scan.",
             "multiprocessing imap ordering contract assumed; OS scheduling only sampled with real pools."),
     "C20": ("Lean 4 theorem read_inside_header + corruption sweep with read-back",
-            "Proof: ReaderR.read_inside_header (a recorded offset anywhere inside a FAB's header line whose remaining text still parses reads "
+            "Proof: C20.good_plotfile_entries (whole plotfile: a good default verdict implies that every box listed in every validated level has its binary file and, at its recorded position, a FAB header line naming "
+            "exactly its index range with the plotfile's component count), ReaderR.read_inside_header (a recorded offset anywhere inside a FAB's header line whose remaining text still parses reads "
             "exactly that FAB's payload) on top of shapeOK_sound; every corrupted instance default validation accepts is read back in full "
             "and compared with the FAB whose header names the box's range.",
             "NoStrayHeader: payloads that spell a FAB header are not generated; instances with several candidate headers are counted, not judged."),
     "C05": ("Lean 4 theorem on the record-level colander model + differential correspondence check",
-            "Proof: Writers.colander_data (for any distribution and order of boxes in the input files, entry i of the output level header "
+            "Proof: C05.kept_fields_rule (which fields are written, in which order: Names.select, compared with every real output), Writers.colander_data (for any distribution and order of boxes in the input files, entry i of the output level header "
             "points at a record that is box i and holds exactly the kept components, any payload type) with recAt_tells/scatter_get (offset "
             "re-mapping); outputs are parsed by the oracle, tasted, compared bit for bit with the input and offset for offset with the model.",
             "Header text rewriting (names, min/max rows) is checked by the oracle on the real output only."),
     "C06": ("Lean 4 theorem on the record-level combine model + differential correspondence check",
-            "Proof: Writers.combine_data / assemble_data (both pairing modes: each output record is the concatenation of the selected "
+            "Proof: C06.field_rule / field_names_distinct (which fields are written: the first input's selection first and unchanged, then the second's not already taken, no name twice - Names.combine, compared with the field list and "
+            "source positions of every real output), Writers.combine_data / assemble_data (both pairing modes: each output record is the concatenation of the selected "
             "components of the two source boxes with the same index, for independent layouts); outputs compared bit for bit with both "
             "inputs and offset for offset with the model; mismatched meshes must be refused before anything is written.",
             "The mesh comparison (__eq__) uses numpy allclose on physical bounds: outside the model, exercised on the real code."),
@@ -91,7 +95,7 @@ CLAIMED = {
             "specification on mixed-size, partially refined, anisotropic meshes for every limit and volfrac setting.",
             "Floating-point summation compared at rtol 1e-9 (the theorem is over Rat); volfrac is a pointwise product applied before the sum."),
     "C11": ("Lean 4 theorem on the record-level chef model + differential correspondence check with independent recipe evaluation",
-            "Proof: Writers.chef_data (entry i of chef's level header points at a record that is box i = kept components then the recipe's, for "
+            "Proof: C11.field_rule (kept-that-exist then the recipe's names, compared as a set with every real output), Writers.chef_data (entry i of chef's level header points at a record that is box i = kept components then the recipe's, for "
             "any input layout; disk-order visiting via assemble_data_ord / goodOrder_offset); outputs parsed by the oracle, tasted, every "
             "component compared under its own name with the recipe evaluated independently (Cantera per cell for the built-ins), kept fields "
             "bit for bit, min/max rows with the written extrema, layout offset for offset with the model; serial and pool modes.",
@@ -104,11 +108,16 @@ CLAIMED = {
             "Ghost stripping and flooring are numpy slicing/division, compared on the real output; one known finding (integral time values)."),
     "C18": ("Lean 4 theorem on the two-column table layout + stdout round-trip correspondence check",
             "Proof: MenuR.shown_covers (the repaired two-column table shows every field exactly once, all n) and the pinned counterexample; "
+            "C18.extrema_over_all_levels (the all-level entries - reduction of the per-level reductions with numpy's NaN / inf semantics - are the extrema over every box of every level) and nan_is_shown, "
+            "on the executable Extrema model whose entries are compared, formatted, with every printed table; "
             "stdout of minuterie and of every menu mode is parsed back and compared with the header tables (oracle) and the layout model; "
             "marinated readers are unpickled and compared with a fresh reader.",
             "Formatting to 3 significant digits, regular-expression classification and pickle are parameters exercised on the real code."),
     "C19": ("Lean 4 theorems on point-to-index conversion + executable matching model as correspondence check",
-            "Proof: Point.pointIdxR_centre / pointLocal_centre (the centre of cell i maps to local index i - lo for any origin and cell size) and "
+            "Proof: C19.query_interior_centre (FULL statement on the model: at the centre of a cell c of box B of level L, one cell away from B's faces, the other boxes of the level separated from B "
+            "along some axis and no finer box touching the cell, Point.query - the model of LevelDataSelector.__call__ up to the interpolation call - takes the single-box branch for (L, B) with local index c - lo(B); "
+            "any number of levels and boxes, any origin, any positive cell sizes), single_box_case (the decision part from the three match lists), "
+            "Point.pointIdxR_centre / pointLocal_centre (the centre of cell i maps to local index i - lo for any origin and cell size) and "
             "pointIdxP_wrong (the pinned formula is wrong for every non-zero origin); sampled interior cell centres are queried and compared "
             "with the stored values and with the Lean matching model (single-box case, box, local index).",
             "scipy map_coordinates at integer indices is a parameter; only CASE 1 (single box) is in the property and the model."),
